@@ -30,6 +30,9 @@ Print Assumptions C11_sorted.
     nondeterminism in the implementation (hash-map iteration order when the per-contig vectors are moved into
     the final map) cannot influence a lookup by key, and is exercised by the correspondence check across
     builds and processes. *)
-Example C11_nonvacuous : exists m m1 m2, build_secs ex_file = Val (Ok m) /\
-  build_secs (firstn 1 ex_file) = Val (Ok m1) /\ build_secs (skipn 1 ex_file) = Val (Ok m2).
-Proof. do 3 eexists. repeat split; vm_compute; reflexivity. Qed.
+Example C11_nonvacuous :
+  match build_secs ex_file, build_secs (firstn 1 ex_file), build_secs (skipn 1 ex_file) with
+  | Val (Ok _), Val (Ok _), Val (Ok _) => True
+  | _, _, _ => False
+  end.
+Proof. vm_compute. exact I. Qed.
